@@ -13,6 +13,7 @@ def full_addr(h):
 
 class C09(PropBase):
     id = 'C09'
+    partial_passes = 0.25
     lean_modules = ['Isotp.Props.C09']
     theorems = []
     keep_ops = ('layer', 'addr')
